@@ -64,7 +64,7 @@ bool rc_search(Evidence& ev, Args const& a, std::string const& name, int cases, 
                GenFn gen, RunFn run, NtFn nontrivial, std::vector<std::string> fpkeys = {})
 {
     rc::detail::TestParams p;
-    p.seed = mix64(a.seed, hash_str(name));
+    p.seed = mix64(mix64(a.seed, hash_str(name)), hash_str(a.target));
     p.maxSuccess = cases;
     p.maxSize = max_size;
     p.maxDiscardRatio = 10;
@@ -109,6 +109,7 @@ bool rc_search(Evidence& ev, Args const& a, std::string const& name, int cases, 
         }
     };
     auto result = rc::detail::checkTestable(prop, md, p);
+    case_finished();
     bool ok = result.template is<rc::detail::SuccessResult>();
     if (!ok)
     {
